@@ -165,11 +165,6 @@ pub open spec fn n1_frame(inp: Seq<u8>, out: Seq<u8>, o: int, c: int) -> bool {
             assert(lines[it.index@ as int] == line@);
             assert(bl.len() == line.spec_bytes().len() <= isize::MAX); // a str is at most isize::MAX bytes long
         }
-//@edit rule=ghost before=<<if !decorative_star_found>>
-        proof {
-            // what has been pushed for this line so far is its normalised form (or nothing yet)
-            assert(if decorative_star_found { utf8(result@) == r0 + norm_line(line@) } else { utf8(result@) == r0 && norm_line(line@) == bl }); // [N1.inv.this_line_normalised]
-        }
 //@edit rule=ghost before=<<decorative_star_found = true;>>
                 proof {
                     let p = first_non_whitespace_idx as int;
